@@ -66,12 +66,13 @@ Proof. intros H Ha Hb w Hw. apply H. lia. Qed.
 Lemma E_free_sub E c c' a b : E_free E c c' -> c <= a -> b <= c' -> E_free E a b.
 Proof. intros H Ha Hb t Ht. apply H. lia. Qed.
 
-Lemma E_free_step E st E1 st1 c c0 c1 :
-  E_free E c c1 -> lframe c c0 E st E1 st1 -> c <= c0 -> E_free E1 c0 c1.
+Lemma E_free_step bound E st E1 st1 c c0 c1 :
+  E_free E c c1 -> wframe bound c c0 E st E1 st1 -> bound <= c -> c <= c0 -> E_free E1 c0 c1.
 Proof.
-  intros H Hf Hc t Ht. destruct (sget (fmt_var t) E1) as [p|] eqn:Hs; [|reflexivity].
-  destruct (lf_new _ _ _ _ _ _ Hf _ _ Hs) as [H'|(t' & Heq & Hr)].
+  intros H Hf Hb Hc t Ht. destruct (sget (fmt_var t) E1) as [p|] eqn:Hs; [|reflexivity].
+  destruct (wr_new _ _ _ _ _ _ _ Hf _ _ Hs) as [H'|[(t' & Heq & Hr)|(t' & Heq & Hr)]].
   - rewrite H in H' by lia. discriminate.
+  - apply fmt_var_inj in Heq. subst. lia.
   - apply fmt_var_inj in Heq. subst. lia.
 Qed.
 
@@ -193,11 +194,25 @@ Proof.
   apply (Em_if u l a ct bt l1 [] [] l1 H (Em_nil u l1)).
 Qed.
 
+(* the user variables in scope keep their binding *)
+Definition keep (sc : list N) (E E' : env) : Prop := forall v, In v sc -> sget (fmt_var v) E' = sget (fmt_var v) E.
+
+Lemma keep_refl sc E : keep sc E E. Proof. intros v _. reflexivity. Qed.
+Lemma keep_trans sc E1 E2 E3 : keep sc E1 E2 -> keep sc E2 E3 -> keep sc E1 E3.
+Proof. intros H1 H2 v Hv. rewrite (H2 v Hv). apply H1. exact Hv. Qed.
+(* a strict (temporaries only) frame keeps every user binding that exists; the ones that do not exist stay away *)
+Lemma keep_lframe sc e st E stL c c' E' stL' :
+  rel pv bound sc e st E stL -> lframe c c' E stL E' stL' -> bound <= c -> keep sc E E'.
+Proof.
+  intros Hrel Hf Hb v Hv. destruct (r_vars _ _ _ _ _ _ _ Hrel v Hv) as (cc & x & p & _ & _ & Hp & _).
+  rewrite Hp. apply (lf_incl _ _ _ _ _ _ Hf). exact Hp.
+Qed.
+
 (* the success part of the conclusion *)
 Definition okstep (sc : list N) (e : senv) (st' : sstate) (F : list N) (c c' : N)
            (E : env) (stL : state) (b : block) (E' : env) (stL' : state) (F' : list N) : Prop :=
-  ExecS E b stL (ROk (E', SigNormal) stL') /\ lframe c c' E stL E' stL' /\
-  rel pv bound sc e st' E' stL' /\ F_new F F' c c'.
+  ExecS E b stL (ROk (E', SigNormal) stL') /\ wframe bound c c' E stL E' stL' /\
+  rel pv bound sc e st' E' stL' /\ F_new F F' c c' /\ keep sc E E'.
 
 Definition eval_post (sc : list N) (e : senv) (F : list N) (c c' : N) (E : env) (stL : state) (b : block)
            (l' : alut) (v : N) (r : SyltSem.res sval) (st' : sstate) : Prop :=
@@ -232,7 +247,7 @@ Qed.
 
 (* after a first segment [c, c0) the context of the rest [c0, c1) *)
 Lemma ctx_step l F E st c c0 c1 l1 F1 E1 st1 :
-  ctx_ok l F E c c1 -> lut_frame l l1 c c0 -> F_new F F1 c c0 -> lframe c c0 E st E1 st1 -> c <= c0 ->
+  ctx_ok l F E c c1 -> lut_frame l l1 c c0 -> F_new F F1 c c0 -> wframe bound c c0 E st E1 st1 -> c <= c0 ->
   ctx_ok l1 F1 E1 c0 c1.
 Proof.
   intros [Hb Hl HF HE] Hf Hn Hfr Hc. constructor; [lia | eapply lut_ok_step; eassumption | eapply F_out_step; eassumption | eapply E_free_step; eassumption].
@@ -270,7 +285,8 @@ Proof.
   - apply HE. exact Ht.
   - apply Hl. left. exact Ht.
   - exists E', stL', F'. split; [|exact Hden].
-    split; [exact Hx|]. split; [exact Hfr|]. split; [eapply rel_lframe; eassumption|].
+    split; [exact Hx|]. split; [apply lframe_w; exact Hfr|]. split; [eapply rel_lframe; eassumption|].
+    split; [|eapply keep_lframe; eassumption].
     destruct HF' as [->| ->]; [apply F_new_refl|].
     split; [apply incl_tl, incl_refl|]. intros t' [<-|Ht']; [right; exact Ht | left; exact Ht'].
 Qed.
